@@ -790,6 +790,14 @@ def spec_expect(c):
             _, op, K, x = s
             e = ru_spec(op, K, [int(v) for v in c.vals], x)
             return None if e is None else {k: str(v) for k, v in e.items()}
+        if s[0] == "RM":
+            _, op, K, mg, p, x = s
+            e = rm_spec(op, K, mg, p, [int(v) for v in c.vals], x)
+            return None if e is None else {k: str(v) for k, v in e.items()}
+        if s[0] == "RI":
+            _, op, K, x = s
+            e = ri_spec(op, K, [int(v) for v in c.vals], x)
+            return None if e is None else {k: str(v) for k, v in e.items()}
         if s[0] == "Q":
             _, op, x, vals = s
             e = q_spec(op, vals, x)
@@ -820,8 +828,16 @@ def build_all(chk):
         "rings3": lambda: vf.build_harness("c15_rings.C", extra_flags=("-DC15_PART=3",), deps=("c15_common.h",), name="c15_rings3"),
         "integer": lambda: vf.build_harness("c15_integer.C", deps=("c15_common.h",)),
     }
+    # RecInt::neg(rint<K>&, const rint<K>&) does not compile in the tree as found (rfiddling.h returns a ruint<K>& as rint<K>&):
+    # it is driven as soon as it does (probe; a failed probe costs a 2 s compile of a five-line unit)
+    pb, pl = vf.build_harness("c15_probe_rintneg.C", link_lib=False)
+    rint_neg = pb is not None
+    chk.cov["rint_neg_compiles"] = rint_neg
     for extra in EXTRA_HARNESSES:
-        jobs[extra[0]] = (lambda e=extra: vf.build_harness(e[1], deps=("c15_common.h",), extra_flags=e[2], name=e[0] if e[2] else None))
+        fl = extra[2]
+        if extra[0] == "rmint" and rint_neg:
+            fl = tuple(fl) + ("-DC15_RINT_NEG",)
+        jobs[extra[0]] = (lambda e=extra, fl=fl: vf.build_harness(e[1], deps=("c15_common.h",), extra_flags=fl, name=e[0] if e[2] else None))
     exes = {}
     with ThreadPoolExecutor(len(jobs)) as ex:
         futs = {k: ex.submit(f) for k, f in jobs.items()}
@@ -838,6 +854,7 @@ def build_all(chk):
         if b is None:
             chk.broke("implementation harness %s does not compile against /repo" % k, l)
         exes[k] = b
+    exes["_rint_neg"] = rint_neg
     return exes
 
 
@@ -858,12 +875,22 @@ RU_OPS = {
     "inv_mod": (3, [0], [1, 2], None, "inv"), "exp_mod": (4, [0], [1, 2, 3], None, "exp"), "bezout_mod": (4, [0, 1], [2, 3], None, "bez"),
     "left_shift": (2, [0], [1], "shift", ""), "right_shift": (2, [0], [1], "shift", ""), "left_shift_1": (2, [0], [1], None, ""), "right_shift_1": (2, [0], [1], None, ""),
     "copy": (2, [0], [1], None, ""),
+    # carry / borrow / shifted-out bit returned through a bool&; native-word operands; Arazi-Qi inverse
+    "add.cw": (2, [0], [1], "u64", ""), "addin.cw": (1, [0], [0], "u64", ""), "addin.w": (1, [0], [0], "u64", ""),
+    "sub.cw": (2, [0], [1], "u64", ""), "subin.cw": (1, [0], [0], "u64", ""), "subin.w": (1, [0], [0], "u64", ""), "subin.c": (2, [0], [0, 1], None, ""),
+    "add_1.c": (2, [0], [1], None, ""), "sub_1.c": (2, [0], [1], None, ""),
+    "add_wc.c": (3, [0], [1, 2], "bit", ""), "add_wcin.c": (2, [0], [0, 1], "bit", ""),
+    "sub_wc.c": (3, [0], [1, 2], "bit", ""), "sub_wcin.c": (2, [0], [0, 1], "bit", ""), "sub_wcin": (2, [0], [0, 1], "bit", ""),
+    "left_shift_1.c": (2, [0], [1], None, ""), "right_shift_1.c": (2, [0], [1], None, ""),
+    "arazi_qi": (2, [0], [1], None, "odd1"), "mulin.w": (1, [0], [0], "u64", ""),
+    "laddmul.c": (5, [0, 1], [2, 3, 4], None, "naive"), "exp_mod.w": (3, [0], [1, 2], "u64", "expw"),
+    "div.w": (2, [0], [1], "u64nz", "same"), "div_r.w": (1, [], [0], "u64nz", "same"),
     "op+=": (2, [0], [0, 1], None, ""), "op-=": (2, [0], [0, 1], None, ""), "op*=": (2, [0], [0, 1], None, ""), "op/=": (2, [0], [0, 1], None, "nz1"),
     "op%=": (2, [0], [0, 1], None, "nz1"), "op&=": (2, [0], [0, 1], None, ""), "op|=": (2, [0], [0, 1], None, ""), "op^=": (2, [0], [0, 1], None, ""),
     "op<<=": (1, [0], [0], "shift", ""), "op>>=": (1, [0], [0], "shift", ""),
     "op=+": (3, [0], [1, 2], None, ""), "op=-": (3, [0], [1, 2], None, ""), "op=*": (3, [0], [1, 2], None, ""), "op=/": (3, [0], [1, 2], None, "nz2"), "op=%": (3, [0], [1, 2], None, "nz2"),
 }
-RU_NAMES = {"bezout_mod": "xycd", "lmul": "hlbc", "lmul_naive": "hlbc", "laddmul": "hlbcd", "div": "qrab", "exp_mod": "rben"}
+RU_NAMES = {"laddmul.c": "hlbcd", "exp_mod.w": "rbn", "div.w": "qa", "div_r.w": "a", "bezout_mod": "xycd", "lmul": "hlbc", "lmul_naive": "hlbc", "laddmul": "hlbcd", "div": "qrab", "exp_mod": "rben"}
 
 
 def ru_valid(op, tag, v, W):
@@ -874,6 +901,10 @@ def ru_valid(op, tag, v, W):
     if tag == "bez" and (v[2] < 2 or v[3] < 2 or math.gcd(v[2], v[3]) != 1):
         return False
     if tag == "exp" and (v[3] < 3 or v[3] % 2 == 0 or v[2] > 4096):
+        return False
+    if tag == "expw" and (v[2] < 3 or v[2] % 2 == 0):
+        return False
+    if tag == "odd1" and v[1] % 2 == 0:
         return False
     return True
 
@@ -918,6 +949,28 @@ def ru_spec(op, K, v, s):
     if op == "left_shift_1": return {0: (v[1] << 1) % W}
     if op == "right_shift_1": return {0: v[1] >> 1}
     if op == "copy": return {0: v[1]}
+    if op == "add.cw": return {0: (v[1] + s) % W, "R": (v[1] + s) // W}
+    if op == "addin.cw": return {0: (v[0] + s) % W, "R": (v[0] + s) // W}
+    if op == "addin.w": return {0: (v[0] + s) % W}
+    if op == "sub.cw": return {0: (v[1] - s) % W, "R": 1 if v[1] < s else 0}
+    if op == "subin.cw": return {0: (v[0] - s) % W, "R": 1 if v[0] < s else 0}
+    if op == "subin.w": return {0: (v[0] - s) % W}
+    if op == "subin.c": return {0: (v[0] - v[1]) % W, "R": 1 if v[0] < v[1] else 0}
+    if op == "add_1.c": return {0: (v[1] + 1) % W, "R": (v[1] + 1) // W}
+    if op == "sub_1.c": return {0: (v[1] - 1) % W, "R": 1 if v[1] == 0 else 0}
+    if op == "add_wc.c": return {0: (v[1] + v[2] + s) % W, "R": (v[1] + v[2] + s) // W}
+    if op == "add_wcin.c": return {0: (v[0] + v[1] + s) % W, "R": (v[0] + v[1] + s) // W}
+    if op == "sub_wc.c": return {0: (v[1] - v[2] - s) % W, "R": 1 if v[1] < v[2] + s else 0}
+    if op == "sub_wcin.c": return {0: (v[0] - v[1] - s) % W, "R": 1 if v[0] < v[1] + s else 0}
+    if op == "sub_wcin": return {0: (v[0] - v[1] - s) % W}
+    if op == "left_shift_1.c": return {0: (v[1] << 1) % W, "R": (v[1] << 1) // W}
+    if op == "right_shift_1.c": return {0: v[1] >> 1, "R": v[1] & 1}
+    if op == "arazi_qi": return {0: pow(v[1], -1, W)}
+    if op == "mulin.w": return {0: v[0] * s % W}
+    if op == "laddmul.c": return {0: (v[2] * v[3] + v[4]) // W % W, 1: (v[2] * v[3] + v[4]) % W, "R": (v[2] * v[3] + v[4]) // (W * W)}
+    if op == "exp_mod.w": return {0: pow(v[1], s, v[2])}
+    if op == "div.w": return {0: v[1] // s, "R": v[1] % s}
+    if op == "div_r.w": return {"R": v[0] % s}
     if op == "op&=": return {0: v[0] & v[1]}
     if op == "op|=": return {0: v[0] | v[1]}
     if op == "op^=": return {0: v[0] ^ v[1]}
@@ -945,7 +998,7 @@ def gen_ru_cases(rng, exes, quick, cases):
         for op, (n, dests, reads, sk, tag) in sorted(RU_OPS.items()):
             if tag == "naive" and K >= 10:
                 continue       # lmul above the Karatsuba threshold is documented "NOT safe" (rumul.h) for outputs aliasing inputs
-            if K >= 10 and (op in ("exp_mod", "inv_mod", "gcd", "bezout_mod") or quick and op.startswith("op")):
+            if K >= 10 and (op in ("exp_mod", "exp_mod.w", "inv_mod", "gcd", "bezout_mod") or quick and op.startswith("op")):
                 continue
             for idx in partitions(n, dests):
                 for rep in range(reps if K <= 8 else max(1, reps // 3)):
@@ -956,7 +1009,11 @@ def gen_ru_cases(rng, exes, quick, cases):
                         x = rng.choice([0, 1, 63, 64, 65, (1 << K) - 1, (1 << K) // 2, rng.range(0, (1 << K) - 1)])
                     elif sk:
                         x = scalar(rng, sk)
+                    if tag == "same" and rep % 2 == 0:
+                        x = rng.choice([2, 2, 3, 10, 97])        # b == 2 takes its own branch (right_shift_1)
                     vals = class_values(rng, n, dests, reads, idx, lambda k: ru_value(rng, K, small=(tag == "exp" and k == 2)), lambda k: ru_value(rng, K))
+                    if tag == "odd1":
+                        vals = [v | 1 if k in reads else v for k, v in enumerate(vals)]
                     if op == "gcd" and rep % 2 == 1:
                         g = rng.choice([2, 6, 3 * 5 * 7 * 11, 2 ** 31 + 11])
                         cv = {}
@@ -964,7 +1021,10 @@ def gen_ru_cases(rng, exes, quick, cases):
                             if idx[k] not in cv:
                                 cv[idx[k]] = g * rng.choice([1, 5, 35, 77, 9, 2 ** 20 + 7]) * (1 + len(cv))
                             vals[k] = cv[idx[k]]
-                    c = Case("recint", "RU", K, op, n, dests, reads, idx, vals, [x] if sk else [], "RecInt::" + op + "(ruint<K>)", RU_NAMES.get(op))
+                    ex = [x] if sk else []
+                    if tag == "same":
+                        ex = [x, rep // 2 % 2]           # 1: the word remainder r and the word divisor b are the same object
+                    c = Case("recint", "RU", K, op, n, dests, reads, idx, vals, ex, "RecInt::" + op + "(ruint<K>)", RU_NAMES.get(op))
                     if not ru_valid(op, tag, c.vals, W) or not ru_valid(op, tag, c.alias_vals(), W):
                         continue
                     c.spec = ("RU", op, K, x)
@@ -974,6 +1034,230 @@ def gen_ru_cases(rng, exes, quick, cases):
 EXTRA_HARNESSES.append(("recint", "c15_recint.C", ()))
 EXTRA_GENERATORS.append(gen_ru_cases)
 
+
+
+# ---------------------------------------------------------------- RecInt::rmint<K,MG> (rm*.h) and rint<K>
+def _rm_ops():
+    o = {}
+    for b in ("add", "sub", "mul", "div", "mod", "op=+", "op=-", "op=*", "op=/", "op=%"):
+        o[b] = (3, [0], [1, 2], None, "")
+    o["addmul"] = (3, [0], [0, 1, 2], None, "")
+    for b in ("addin", "subin", "mulin", "divin", "modin", "op+=", "op-=", "op*=", "op/=", "op%="):
+        o[b] = (2, [0], [0, 1], None, "")
+    for b in ("neg", "square", "inv", "copy", "reduction", "square_root", "op=neg", "op="):
+        o[b] = (2, [0], [1], None, "")
+    for b in ("negin", "squarein", "invin", "op++", "op--", "op++post", "op--post"):
+        o[b] = (1, [0], [0], None, "")
+    for t in ("u64", "i64"):
+        for b in ("add", "sub", "mul", "div", "mod", "op=+", "op=w+", "op=-", "op=w-", "op=*", "op=w*", "op=/", "op=%"):
+            o[b + "." + t] = (2, [0], [1], t, "")
+        for b in ("addin", "subin", "mulin", "divin", "modin", "op+=", "op-=", "op*=", "op/=", "op%="):
+            o[b + "." + t] = (1, [0], [0], t, "")
+        o["inv." + t] = (1, [0], [], t, "")
+        o["addmul." + t] = (2, [0], [0, 1], t, "")
+    o["exp.u64"] = (2, [0], [1], "e64", "")
+    o["exp.ru"] = (2, [0], [1], "eru", "")
+    return o
+
+
+RM_OPS = _rm_ops()
+RM_DIVISOR = {"div": 2, "op=/": 2, "divin": 1, "op/=": 1, "mod": 2, "op=%": 2, "modin": 1, "op%=": 1}
+
+
+def rm_spec(op, K, mg, p, v, w):
+    """raw representatives (member Value); MG_ACTIVE: Montgomery images x R mod p, R = 2^(2^K)"""
+    R = (1 << (1 << K)) % p if mg else 1
+    if math.gcd(R, p) != 1:
+        return None
+    Ri = pow(R, -1, p)
+    user = lambda x: x * Ri % p
+    raw = lambda u: u * R % p
+    base, _, t = op.partition(".")
+    wr = raw(w % p) if t in ("u64", "i64") else None
+    inv = lambda x: pow(x, -1, p) if math.gcd(x, p) == 1 else None
+    def quo(x, y):          # raw(user(x) / user(y))
+        i = inv(y)
+        return None if i is None else x * i % p * R % p
+    def md(x, y):
+        return None if user(y) == 0 else raw(user(x) % user(y))
+    if t in ("u64", "i64"):
+        b = v[1] if len(v) > 1 else None
+        a = v[0]
+        r = {"add": lambda: (b + wr) % p, "op=+": lambda: (b + wr) % p, "op=w+": lambda: (b + wr) % p,
+             "sub": lambda: (b - wr) % p, "op=-": lambda: (b - wr) % p, "op=w-": lambda: (wr - b) % p,
+             "mul": lambda: b * wr * Ri % p, "op=*": lambda: b * wr * Ri % p, "op=w*": lambda: b * wr * Ri % p,
+             "div": lambda: quo(b, wr), "op=/": lambda: quo(b, wr), "mod": lambda: md(b, wr), "op=%": lambda: md(b, wr),
+             "addin": lambda: (a + wr) % p, "op+=": lambda: (a + wr) % p, "subin": lambda: (a - wr) % p, "op-=": lambda: (a - wr) % p,
+             "mulin": lambda: a * wr * Ri % p, "op*=": lambda: a * wr * Ri % p, "divin": lambda: quo(a, wr), "op/=": lambda: quo(a, wr),
+             "modin": lambda: md(a, wr), "op%=": lambda: md(a, wr),
+             "inv": lambda: None if inv(wr) is None else inv(wr) * R * R % p,
+             "addmul": lambda: (a + b * wr * Ri) % p}.get(base)
+        e = r() if r else None
+        return None if e is None else {0: e}
+    if op == "exp.u64" or op == "exp.ru":
+        return {0: raw(pow(user(v[1]), w, p))} if p % 2 == 1 else None
+    r = {"add": lambda: (v[1] + v[2]) % p, "op=+": lambda: (v[1] + v[2]) % p, "sub": lambda: (v[1] - v[2]) % p, "op=-": lambda: (v[1] - v[2]) % p,
+         "mul": lambda: v[1] * v[2] * Ri % p, "op=*": lambda: v[1] * v[2] * Ri % p, "div": lambda: quo(v[1], v[2]), "op=/": lambda: quo(v[1], v[2]),
+         "mod": lambda: md(v[1], v[2]), "op=%": lambda: md(v[1], v[2]), "addmul": lambda: (v[0] + v[1] * v[2] * Ri) % p,
+         "addin": lambda: (v[0] + v[1]) % p, "op+=": lambda: (v[0] + v[1]) % p, "subin": lambda: (v[0] - v[1]) % p, "op-=": lambda: (v[0] - v[1]) % p,
+         "mulin": lambda: v[0] * v[1] * Ri % p, "op*=": lambda: v[0] * v[1] * Ri % p, "divin": lambda: quo(v[0], v[1]), "op/=": lambda: quo(v[0], v[1]),
+         "modin": lambda: md(v[0], v[1]), "op%=": lambda: md(v[0], v[1]),
+         "neg": lambda: (-v[1]) % p, "op=neg": lambda: (-v[1]) % p, "square": lambda: v[1] * v[1] * Ri % p,
+         "inv": lambda: None if inv(v[1]) is None else inv(v[1]) * R * R % p, "copy": lambda: v[1], "op=": lambda: v[1],
+         "reduction": lambda: v[1] * Ri % p,
+         "negin": lambda: (-v[0]) % p, "squarein": lambda: v[0] * v[0] * Ri % p,
+         "invin": lambda: None if inv(v[0]) is None else inv(v[0]) * R * R % p,
+         "op++": lambda: (v[0] + raw(1)) % p, "op--": lambda: (v[0] - raw(1)) % p,
+         "op++post": lambda: (v[0] + raw(1)) % p, "op--post": lambda: (v[0] - raw(1)) % p}.get(op)
+    e = r() if r else None
+    if e is None:
+        return None
+    out = {0: e}
+    if op.endswith("post"):
+        out["R"] = v[0]
+    return out
+
+
+def rm_moduli(rng, K, mg, quick):
+    hi = (1 << (1 << K)) - 1
+    ms = [101, 103, hi, prevprime(hi), prevprime(hi // 2 + 1), prevprime(math.isqrt(hi)) , 3, 29]
+    if not mg:
+        ms += [100, 1 << ((1 << K) - 1), hi - 1]
+    n = 1 if quick else 6
+    for _ in range(n):
+        ms.append(rng.range(3, hi) | 1)
+        ms.append(rng.range(3, 1 << rng.range(3, 1 << K)) | 1)
+    out = []
+    for m in ms:
+        if m >= 3 and m <= hi and m not in out and (not mg or m % 2 == 1):
+            out.append(m)
+    return out
+
+
+def gen_rm_cases(rng, exes, quick, cases):
+    reps = 1 if quick else 6
+    for K in (6, 7, 8):
+        for mg in (0, 1):
+            mods = rm_moduli(rng, K, mg, quick)
+            for pi, p in enumerate(mods):
+                for op, (n, dests, reads, sk, tag) in sorted(RM_OPS.items()):
+                    base = op.partition(".")[0]
+                    if base == "exp" and p % 2 == 0:
+                        continue            # exp_mod wants an odd modulus
+                    if base == "square_root" and not (p in (101, 103, 29, 3) or pi in (3, 4, 5) and p % 8 != 1):
+                        continue            # prime modulus, p != 1 mod 8: no random choice in the algorithm
+                    if quick and pi >= 6 and "." in op and not op.startswith("exp"):
+                        continue
+                    for idx in partitions(n, dests):
+                        for rep in range(reps):
+                            def val(k):
+                                return rng.choice([0, 1, p - 1, p - 2, p // 2, (p + 1) // 2, 2, rng.range(0, p - 1), rng.range(0, p - 1), rng.range(0, p - 1)]) % p
+                            vals = class_values(rng, n, dests, reads, idx, val, val)
+                            x = None
+                            if sk in ("u64", "i64"):
+                                x = scalar(rng, sk)
+                                if base in ("div", "divin", "op=/", "op/=", "mod", "modin", "op=%", "op%=", "inv") and x % p == 0:
+                                    x = 7 if p != 7 else 5
+                                if sk == "i64" and x == -(1 << 63):
+                                    x += 1
+                            elif sk == "e64":
+                                x = rng.choice([0, 1, 2, 3, 16, 17, 255, 65537, rng.range(0, 1 << 20), (1 << 64) - 1 if rep % 2 else 5])
+                            elif sk == "eru":
+                                x = rng.choice([0, 1, 2, 15, 16, 1 << 64, (1 << 64) + 3, rng.range(0, (1 << (1 << K)) - 1) >> rng.range(0, (1 << K) - 8)]) % (1 << (1 << K))
+                            dp = RM_DIVISOR.get(op)
+                            if dp is not None:
+                                # divisors: mostly invertible; sometimes a zero divisor of Z/p (div gives 0 by definition); never 0 for mod
+                                def setc(k, v):
+                                    for j in range(n):
+                                        if j in reads and idx[j] == idx[k]:
+                                            vals[j] = v
+                                if vals[dp] == 0 or (math.gcd(vals[dp], p) != 1 and rng.chance(2, 3)):
+                                    u = 1
+                                    for _ in range(50):
+                                        u = rng.range(1, p - 1)
+                                        if math.gcd(u, p) == 1:
+                                            break
+                                    setc(dp, u)
+                            c = Case("rmint", "RM", "%d,%d,%d" % (K, mg, p), op, n, dests, reads, idx, vals, [x] if sk else [],
+                                     "RecInt::%s(rmint<K,%s>)" % (op, "MG_ACTIVE" if mg else "MG_INACTIVE"))
+                            if dp is not None and (c.vals[dp] == 0 or c.alias_vals()[dp] == 0):
+                                continue
+                            c.spec = ("RM", op, K, mg, p, x)
+                            cases.append(c)
+
+
+def _ri_ops():
+    o = {}
+    for b in ("add", "sub", "mul", "div_q", "div_r", "inv_mod", "op=+", "op=-", "op=*", "op=/", "op=%", "add.c", "sub.c"):
+        o[b] = (3, [0], [1, 2], None, "")
+    o["addmul"] = (3, [0], [0, 1, 2], None, "")
+    for b in ("addin", "subin", "mulin", "mod_nin", "op+=", "op-=", "op*=", "op/=", "op%=", "op&=", "op|=", "op^=", "addin.c", "subin.c"):
+        o[b] = (2, [0], [0, 1], None, "")
+    for b in ("copy", "neg", "add_1", "sub_1", "add_1.c", "sub_1.c"):
+        o[b] = (2, [0], [1], None, "")
+    for b in ("add.w", "sub.w", "mul.w", "div_q.w", "add.cw", "sub.cw"):
+        o[b] = (2, [0], [1], "i64", "")
+    return o
+
+
+RI_OPS = _ri_ops()
+RI_DIVISOR = {"div_q": 2, "div_r": 2, "inv_mod": 2, "op=/": 2, "op=%": 2, "mod_nin": 1, "op/=": 1, "op%=": 1}
+
+
+def ri_spec(op, K, v, w):
+    """two's complement wrap-around for the additive / multiplicative / bitwise forms; the division family of rint<K>
+    is compared with the call on distinct objects only (its sign conventions are not C15's subject)"""
+    W = 1 << (1 << K)
+    def sg(x):
+        x %= W
+        return x - W if x >= W // 2 else x
+    r = {"add": lambda: v[1] + v[2], "op=+": lambda: v[1] + v[2], "add.c": lambda: v[1] + v[2], "sub": lambda: v[1] - v[2], "op=-": lambda: v[1] - v[2],
+         "sub.c": lambda: v[1] - v[2], "mul": lambda: v[1] * v[2], "op=*": lambda: v[1] * v[2], "addmul": lambda: v[0] + v[1] * v[2],
+         "addin": lambda: v[0] + v[1], "op+=": lambda: v[0] + v[1], "addin.c": lambda: v[0] + v[1], "subin": lambda: v[0] - v[1], "op-=": lambda: v[0] - v[1],
+         "subin.c": lambda: v[0] - v[1], "mulin": lambda: v[0] * v[1], "op*=": lambda: v[0] * v[1],
+         "op&=": lambda: (v[0] % W) & (v[1] % W), "op|=": lambda: (v[0] % W) | (v[1] % W), "op^=": lambda: (v[0] % W) ^ (v[1] % W),
+         "copy": lambda: v[1], "neg": lambda: -v[1], "add_1": lambda: v[1] + 1, "sub_1": lambda: v[1] - 1, "add_1.c": lambda: v[1] + 1, "sub_1.c": lambda: v[1] - 1,
+         "add.w": lambda: v[1] + w, "add.cw": lambda: v[1] + w, "sub.w": lambda: v[1] - w, "sub.cw": lambda: v[1] - w, "mul.w": lambda: v[1] * w}.get(op)
+    if r is None or (w is not None and w < 0):
+        return None         # (the free functions add/sub/mul(rint&, const rint&, T) add a negative word as an unsigned limb: a value
+                            #  matter of the call on distinct objects, not an alias matter; such cases are compared A against F only)
+    return {0: sg(r())}
+
+
+def gen_ri_cases(rng, exes, quick, cases):
+    reps = 2 if quick else 12
+    for K in (6, 7, 8):
+        W = 1 << (1 << K)
+        def val(k):
+            v = rng.choice([0, 1, -1, 2, W // 2 - 1, -(W // 2) + 1, vf.structured_int(rng, 1 << (K - 6)), vf.structured_int(rng, 1 << (K - 6)), rng.range(-1000, 1000)])
+            v %= W
+            v = v - W if v >= W // 2 else v
+            return -(W // 2) + 1 if v == -(W // 2) else v          # |most negative| is not representable
+        for op, (n, dests, reads, sk, tag) in sorted(RI_OPS.items()):
+            if op == "neg" and not exes.get("_rint_neg"):
+                continue
+            for idx in partitions(n, dests):
+                for rep in range(reps):
+                    vals = class_values(rng, n, dests, reads, idx, val, val)
+                    x = scalar(rng, "i64nz") if sk else None
+                    dp = RI_DIVISOR.get(op)
+                    if dp is not None:
+                        d = rng.choice([3, 7, 101, 2 ** 31 - 1, 2 ** 61 - 1, -7, (1 << ((1 << K) - 2)) + 1] if op != "inv_mod" and op != "mod_nin" else [7, 101, 2 ** 31 - 1, 2 ** 61 - 1])
+                        for j in range(n):
+                            if j in reads and idx[j] == idx[dp]:
+                                vals[j] = d
+                    c = Case("rmint", "RI", K, op, n, dests, reads, idx, vals, [x] if sk else [], "RecInt::" + op + "(rint<K>)")
+                    if dp is not None and (c.vals[dp] == 0 or c.alias_vals()[dp] == 0):
+                        continue
+                    if op == "inv_mod" and (math.gcd(c.vals[1], c.vals[2]) != 1 or math.gcd(c.alias_vals()[1], c.alias_vals()[2]) != 1):
+                        continue
+                    c.spec = ("RI", op, K, x)
+                    cases.append(c)
+
+
+EXTRA_HARNESSES.append(("rmint", "c15_rmint.C", ()))
+EXTRA_GENERATORS.append(gen_rm_cases)
+EXTRA_GENERATORS.append(gen_ri_cases)
 
 
 # ---------------------------------------------------------------- GFq, Extension, Poly1Dom (alias comparison only)
@@ -1197,6 +1481,11 @@ def main(tier, replay=None):
                 cs.spec = ("RU", cs.op, cs.param, cs.extra[0] if cs.extra else None)
             elif cs.dom == "poly":
                 cs.names = POLY_NAMES.get(cs.op)
+            elif cs.dom == "RM":
+                K_, mg_, p_ = [int(t) for t in str(cs.param).split(",")]
+                cs.spec = ("RM", cs.op, K_, mg_, p_, cs.extra[0] if cs.extra else None)
+            elif cs.dom == "RI":
+                cs.spec = ("RI", cs.op, cs.param, cs.extra[0] if cs.extra else None)
             cases.append(cs)
     else:
         ring_parts = (("rings1", PART1), ("rings2", PART2), ("rings3", PART3))
